@@ -292,15 +292,32 @@ class Run(object):
                            "how_to_replay": "cd /verif && ./check %s --replay %s" % (self.pid, p)},
                           f, indent=1, sort_keys=True)
             paths.append(p)
-        # replay discipline: the first violation must reproduce twice in fresh interpreters
+        # replay discipline: a reported violation must reproduce twice in fresh interpreters.  Violations are tried
+        # in order (smallest first); one that does not reproduce is dropped with a note (its cause is state the
+        # harness does not own, e.g. object addresses), and only if NONE of the reported ones reproduces is the run
+        # a harness error.
         if paths and os.environ.get("VERIF_NO_REPLAY_CHECK") != "1":
-            for _ in range(2):
-                r = subprocess.run([os.path.join(VERIF, "check"), self.pid, "--replay", paths[0]],
-                                   capture_output=True, text=True)
-                if r.returncode != 1:
-                    sys.stderr.write(r.stdout + r.stderr)
-                    raise HarnessError("violation %s did not reproduce in a fresh interpreter "
-                                       "(nondeterminism not owned)" % paths[0])
+            keep = []
+            for v, p_ in zip(reported, paths):
+                ok = True
+                for _ in range(2):
+                    r = subprocess.run([os.path.join(VERIF, "check"), self.pid, "--replay", p_],
+                                       capture_output=True, text=True)
+                    if r.returncode != 1:
+                        ok = False
+                        break
+                if ok:
+                    keep.append((v, p_))
+                    if len(keep) >= 3:
+                        break
+                else:
+                    sys.stderr.write("  note: %s did not reproduce in a fresh interpreter; not reported\n" % p_)
+                    self.total.counters["violations_not_reproducible_in_fresh_interpreter"] += 1
+            if not keep:
+                raise HarnessError("none of the %d reported violations reproduced in a fresh interpreter "
+                                   "(nondeterminism not owned), first: %s" % (len(paths), paths[0]))
+            reported = [v for v, _ in keep]
+            paths = [p_ for _, p_ in keep]
         self.write_evidence(wall, nviol)
         for v, p in zip(reported, paths):
             sys.stderr.write("  violation clause=%s site=%s observed=%s expected=%s case=%s\n" % (
